@@ -44,7 +44,7 @@ theorem cntOf_zero_of (n : Nat) (p : Pc → Bool) (f : Tid → Pc) (h : ∀ u, u
 /-- blocker owned (as waiter) by an actor at this pc -/
 @[grind] def kB : K → Option Bid | .toPark b => some b | .fin => none
 @[grind] def owns : Pc → Option Bid
-  | .w1push b | .w2fsub b | .w5park b | .w6load b | .w7set b | .w8load b | .w9swap b => some b
+  | .w1push b | .w2fsub b | .w5park b | .i6load b | .w6load b | .w7set b | .w8load b | .w9swap b => some b
   | .w3pop k | .wake1 _ k | .wake2 _ k | .wake3 _ k | .p0fadd k => kB k
   | _ => none
 /-- blocker this actor is waking -/
@@ -54,7 +54,7 @@ theorem cntOf_zero_of (n : Nat) (p : Pc → Bool) (f : Tid → Pc) (h : ∀ u, u
 /-- the abort phase an owner pc implies -/
 @[grind] def aphOf : Pc → Option APh
   | .w6load _ => some .a1 | .w7set _ => some .a2 | .w8load _ => some .a3 | .w9swap _ => some .a4
-  | .w1push _ | .w2fsub _ | .w5park _ | .w3pop _ | .wake1 .. | .wake2 .. | .wake3 .. | .p0fadd _ => some .a0
+  | .w1push _ | .w2fsub _ | .w5park _ | .i6load _ | .w3pop _ | .wake1 .. | .wake2 .. | .wake3 .. | .p0fadd _ => some .a0
   | _ => none
 @[grind] def vphOf : Pc → Option VPh
   | .wake1 .. => some .v1 | .wake2 .. => some .v2 | .wake3 .. => some .v3
